@@ -602,6 +602,98 @@ def ob_closed_form_structure():
     return verify(body, check_side=False, timeout_ms=120000)
 
 
+@obligation("altmin/structure_cost_and_receive_filters", timeout=300,
+            desc="AlternatingMinIASolver._updateC / _updateF / _updateW / get_cost (K = 2, 2 x 2 complex symbolic channels with symbolic path "
+                 "loss, one stream each, symbolic power) with peig / leig as abstract callees (arbitrary symbolic results, arguments recorded): "
+                 "the interference subspace C_k is what peig returns for EXACTLY the interference covariance of receiver k (sum over the other "
+                 "users of H_kl full_F_l full_F_l^H H_kl^H on the links WITH their path loss) with Nr - Ns vectors; the precoder F_l is what leig "
+                 "returns for sum_{k != l} H_kl^H (I - C_k C_k^H) H_kl, normalised to unit norm; the receive filter is the first Ns rows of "
+                 "[H_kk F_k, C_k]^-1, hence W_k^H (H_kk F_k) == I and W_k^H C_k == 0 (it nulls the whole interference subspace); get_cost == "
+                 "sum_{k != l} ||(I - C_k C_k^H) H_kl full_F_l||_F^2 (the leaked interference power the property speaks about)")
+def ob_altmin_structure():
+    def body(c, it):
+        import pyphysim.ia.algorithms as alg
+        import pyphysim.channels.multiuser as mu
+        import pyphysim.util.misc as misc
+        from .C20 import _meq
+        draws = []
+        _install_models(c, it, draws)
+        ch = it.call(mu.MultiUserChannelMatrix, [])
+        it.call(it.getattr(ch, "randomize"), [2, 2, 2])
+        it.call(it.getattr(ch, "set_pathloss"), [_pmat(c, "PL", 2, 2)])
+        H = it.getattr(ch, "H")
+        peigs, leigs = [], []
+
+        def m_peig(interp, A, n):
+            V = _cmat(c, "C%d" % len(peigs), np.shape(A)[0], n)
+            peigs.append((np.asarray(A, dtype=object), n, V))
+            return V, None
+
+        def m_leig(interp, A, n):
+            V = _cmat(c, "L%d" % len(leigs), np.shape(A)[0], n)
+            leigs.append((np.asarray(A, dtype=object), n, V))
+            return V, None
+        for key, m in (("pyphysim.util.misc:peig", m_peig), ("pyphysim.util.misc:leig", m_leig)):
+            it.models[key] = m
+        it.models[misc.peig] = m_peig
+        it.models[misc.leig] = m_leig
+        s = it.call(alg.AlternatingMinIASolver, [ch])
+        F0 = np.empty(2, dtype=object)
+        for k in range(2):
+            F0[k] = _cmat(c, "F%d" % k, 2, 1)
+        P = [c.var("P0", "real"), c.var("P1", "real")]
+        c.assume((P[0] > 0) & (P[1] > 0))
+        it.call(it.getattr(s, "set_precoders"), [F0, None, list(P)])
+        fF = [np.asarray(x, dtype=object) for x in it.getattr(s, "full_F")]
+        goals = []
+        it.call(it.getattr(s, "_updateC"), [])
+        goals.append(Goal("one dominant-subspace request per receiver, Nr - Ns vectors", len(peigs) == 2 and all(n == 1 for _, n, _ in peigs)))
+        if len(peigs) != 2:
+            return goals
+        C = it.getattr(s, "_C")
+        for k in range(2):
+            l = 1 - k
+            A = np.dot(H[k, l], fF[l])
+            goals.append(Goal("receiver %d: peig is asked for the covariance of the interference it receives (links with path loss, "
+                              "power-scaled precoders)" % k, _meq(peigs[k][0], np.dot(A, _conjT(A)))))
+            goals.append(Goal("receiver %d: C_k is what peig returned" % k, all(x is y for x, y in zip(np.asarray(C[k], dtype=object).flat, peigs[k][2].flat))))
+        Cs = [peigs[k][2] for k in range(2)]
+        # cost for the current (C, F)
+        cost = it.call(it.getattr(s, "get_cost"), [])
+        spec = 0
+        for k in range(2):
+            l = 1 - k
+            A = np.dot(H[k, l], fF[l])
+            R = A - np.dot(np.dot(Cs[k], _conjT(Cs[k])), A)
+            spec = spec + sum(_abs2(x) for x in R.flat)
+        goals.append(Goal("get_cost == sum over interfering links of ||(I - C_k C_k^H) H_kl full_F_l||^2", frac_eq(lift(cost), spec)))
+        it.call(it.getattr(s, "_updateF"), [])
+        goals.append(Goal("one least-subspace request per transmitter, Ns vectors", len(leigs) == 2 and all(n == 1 for _, n, _ in leigs)))
+        if len(leigs) != 2:
+            return goals
+        Fn = [np.asarray(x, dtype=object) for x in it.getattr(s, "_F")]
+        for l in range(2):
+            k = 1 - l
+            Y = np.eye(2, dtype=object) - np.dot(Cs[k], _conjT(Cs[k]))
+            M = np.dot(np.dot(_conjT(H[k, l]), Y), H[k, l])
+            goals.append(Goal("transmitter %d: leig is asked for sum_k H_kl^H (I - C_k C_k^H) H_kl" % l, _meq(leigs[l][0], M)))
+            raw = leigs[l][2]
+            n2 = sum(_abs2(x) for x in raw.flat)
+            goals.append(Goal("transmitter %d: F_l is that vector scaled to unit norm" % l,
+                              _meq(Fn[l] * lift(n2).to_real().sqrt(), raw) & frac_eq(sum(_abs2(x) for x in Fn[l].flat), 1)))
+        it.call(it.getattr(s, "_updateW"), [])
+        WH = it.getattr(s, "_W_H")
+        for k in range(2):
+            w = np.asarray(WH[k], dtype=object)
+            goals.append(Goal("receiver %d: one filter row" % k, w.shape == (1, 2)))
+            if w.shape != (1, 2):
+                continue
+            goals.append(Goal("receiver %d: W_k^H (H_kk F_k) == 1" % k, _meq(np.dot(w, np.dot(H[k, k], Fn[k])), np.eye(1, dtype=object))))
+            goals.append(Goal("receiver %d: W_k^H C_k == 0 (the interference subspace is nulled)" % k, _meq(np.dot(w, Cs[k]), np.zeros((1, 1), dtype=object))))
+        return goals
+    return verify(body, check_side=False, timeout_ms=120000)
+
+
 @obligation("lemma/alignment_lean", kind="lemma", tiers=("thorough",), timeout=2400,
             desc="L-ALIGN (Lean 4 + Mathlib, lemmas/Alignment.lean): for square matrices over a field with H31, H32, H12, H23 invertible, "
                  "E = H31^-1 H32 H12^-1 H13 H23^-1 H21 and E v = lambda v, the vectors F2 = H32^-1 H31 v and F3 = H23^-1 H21 v satisfy "
